@@ -10,6 +10,6 @@ module ConfigurationModule
   integer, parameter :: NUM_CELLS = 100;
   integer(kind=8), parameter :: NUM_GROUPS = 23994957;
   logical, dimension (3) :: VECTOR = [.true., .true., .false.];
-  integer, dimension (2,3), parameter :: MATRIX = reshape([1, 2, 3, 4, 5, 6],[2,3])
+  integer, dimension (2,3), parameter :: MATRIX = reshape([1, 2, 3, 4, 5, 6],[2,3],order=[2,1])
 
 end module ConfigurationModule
